@@ -63,3 +63,235 @@ Example C06_example_eval :
   (match q_obj_eval (1#10000000000) (q_obj_reverse o 0) [(5#2)%Q] with Ok v => map Qred v | Err _ => [] end)
   = (match q_obj_eval (1#10000000000) o [(1#2)%Q] with Ok v => map Qred v | Err _ => [] end).
 Proof. vm_compute. reflexivity. Qed.
+
+(* ------------------------------------------------------------------------------------------------------
+   Added in build session 4 (statements re-stated from the proof files by harness tooling; each is closed by
+   exact). *)
+From SplipyModel Require Import Proofs.ObjEval Proofs.ReparamEndToEnd Proofs.ReverseEndToEnd Proofs.SwapEndToEnd.
+Open Scope R_scope.
+Theorem C06_reparam_then_evaluate :
+  forall (tol : R) (o : obj R) (d : nat) (s e : R) (o' : obj R) (ts : list R),
+         0 < tol ->
+         wf_obj_R tol o ->
+         (d < length (o_bases o))%nat ->
+         s < e ->
+         obj_reparam_dir o d s e = Ok o' ->
+         (d < length ts)%nat ->
+         let bd := nth d (o_bases o) dflt_basis in
+         let al := (e - s) / (b_end bd - b_start bd) in
+         knot_clear (b_knots bd) (Rmax tol (tol / al)) (nth d ts 0) ->
+         (b_per1 bd <> 0%nat -> b_start bd <= nth d ts 0 <= b_end bd) ->
+         obj_eval tol o' (upd ts d (al * (nth d ts 0 - b_start bd) + s)) = obj_eval tol o ts.
+Proof. exact @reparam_dir_eval. Qed.
+Print Assumptions C06_reparam_then_evaluate.
+
+Theorem C06_reparam_then_evaluate_scaled_tolerance :
+  forall (tol : R) (o : obj R) (d : nat) (s e : R) (o' : obj R) (ts : list R),
+         0 < tol ->
+         wf_obj_R tol o ->
+         (d < length (o_bases o))%nat ->
+         s < e ->
+         obj_reparam_dir o d s e = Ok o' ->
+         (d < length ts)%nat ->
+         let bd := nth d (o_bases o) dflt_basis in
+         let al := (e - s) / (b_end bd - b_start bd) in
+         (forall i : nat,
+          (i < length (o_bases o))%nat ->
+          i <> d ->
+          let bi := nth i (o_bases o) dflt_basis in
+          knot_clear (b_knots bi) (Rmax tol (al * tol)) (nth i ts 0) /\
+          (b_per1 bi <> 0%nat -> b_start bi <= nth i ts 0 <= b_end bi)) ->
+         obj_eval (al * tol) o' (upd ts d (al * (nth d ts 0 - b_start bd) + s)) = obj_eval tol o ts.
+Proof. exact @reparam_dir_eval_scaled. Qed.
+Print Assumptions C06_reparam_then_evaluate_scaled_tolerance.
+
+Theorem C06_reparam_curve_then_evaluate :
+  forall (tol : R) (o : obj R) (s e : R) (o' : obj R) (t : R),
+         0 < tol ->
+         wf_obj_R tol o ->
+         length (o_bases o) = 1%nat ->
+         s < e ->
+         obj_reparam_dir o 0 s e = Ok o' ->
+         let b := nth 0 (o_bases o) dflt_basis in
+         let al := (e - s) / (b_end b - b_start b) in
+         obj_eval (al * tol) o' [al * (t - b_start b) + s] = obj_eval tol o [t].
+Proof. exact @reparam_curve_eval. Qed.
+Print Assumptions C06_reparam_curve_then_evaluate.
+
+Theorem C06_reparam_domain :
+  forall (tol : R) (o : obj R) (d : nat) (s e : R) (o' : obj R),
+         0 < tol ->
+         wf_obj_R tol o ->
+         (d < length (o_bases o))%nat ->
+         s < e ->
+         obj_reparam_dir o d s e = Ok o' ->
+         let bd := nth d (o_bases o) dflt_basis in
+         let bd' := nth d (o_bases o') dflt_basis in
+         let al := (e - s) / (b_end bd - b_start bd) in
+         b_start bd' = s /\
+         b_end bd' = e /\
+         b_order bd' = b_order bd /\
+         b_per1 bd' = b_per1 bd /\
+         length (b_knots bd') = length (b_knots bd) /\
+         (forall i : nat, kn (b_knots bd') i = al * (kn (b_knots bd) i - b_start bd) + s) /\
+         length (o_bases o') = length (o_bases o) /\
+         (forall i : nat, i <> d -> nth i (o_bases o') dflt_basis = nth i (o_bases o) dflt_basis) /\
+         o_cps o' = o_cps o /\ o_dim o' = o_dim o /\ o_rat o' = o_rat o.
+Proof. exact @reparam_dir_domain. Qed.
+Print Assumptions C06_reparam_domain.
+
+Theorem C06_reparam_inverse :
+  forall (tol : R) (o : obj R) (d : nat) (s e : R) (o' : obj R),
+         0 < tol ->
+         wf_obj_R tol o ->
+         (d < length (o_bases o))%nat ->
+         s < e ->
+         obj_reparam_dir o d s e = Ok o' ->
+         let bd := nth d (o_bases o) dflt_basis in obj_reparam_dir o' d (b_start bd) (b_end bd) = Ok o.
+Proof. exact @reparam_dir_inverse. Qed.
+Print Assumptions C06_reparam_inverse.
+
+Theorem C06_reparam_total :
+  forall (tol : R) (o : obj R) (d : nat) (s e : R),
+         0 < tol ->
+         wf_obj_R tol o ->
+         (d < length (o_bases o))%nat ->
+         (e <= s -> obj_reparam_dir o d s e = Err ValueError) /\
+         (s < e -> exists o' : obj R, obj_reparam_dir o d s e = Ok o').
+Proof. exact @reparam_dir_total. Qed.
+Print Assumptions C06_reparam_total.
+
+Theorem C06_reverse_then_evaluate :
+  forall tol : R,
+         0 < tol ->
+         forall o : obj R,
+         wf_obj_R tol o ->
+         forall d : nat,
+         (d < length (o_bases o))%nat ->
+         b_per1 (nth d (o_bases o) dflt_basis) = 0%nat ->
+         forall ts ts2 : list R,
+         (forall i : nat, (i < length (o_bases o))%nat -> in_dom tol (nth i (o_bases o) dflt_basis) (nth i ts 0)) ->
+         rev_ok (b_knots (nth d (o_bases o) dflt_basis)) (b_order (nth d (o_bases o) dflt_basis)) tol (nth d ts 0) ->
+         nth d ts2 0 = b_start (nth d (o_bases o) dflt_basis) + b_end (nth d (o_bases o) dflt_basis) - nth d ts 0 ->
+         (forall i : nat, i <> d -> nth i ts2 0 = nth i ts 0) -> obj_eval tol (obj_reverse o d) ts2 = obj_eval tol o ts.
+Proof. exact @reverse_eval. Qed.
+Print Assumptions C06_reverse_then_evaluate.
+
+Theorem C06_reverse_then_evaluate_clear :
+  forall (tol : R) (o : obj R) (d : nat) (ts : list R),
+         0 < tol ->
+         wf_obj_R tol o ->
+         (d < length (o_bases o))%nat ->
+         (d < length ts)%nat ->
+         let bd := nth d (o_bases o) dflt_basis in
+         let a := b_start bd in
+         let e := b_end bd in
+         b_per1 bd = 0%nat ->
+         (forall i : nat, (i < length (o_bases o))%nat -> in_dom tol (nth i (o_bases o) dflt_basis) (nth i ts 0)) ->
+         (forall v : R, In v (b_knots bd) -> tol <= Rabs (v - nth d ts 0) \/ v = a \/ v = e) ->
+         obj_eval tol (obj_reverse o d) (upd ts d (a + e - nth d ts 0)) = obj_eval tol o ts.
+Proof. exact @reverse_eval_clear. Qed.
+Print Assumptions C06_reverse_then_evaluate_clear.
+
+Theorem C06_reverse_then_evaluate_at_knot :
+  forall (tol : R) (o : obj R) (d : nat) (ts : list R) (m r : nat),
+         0 < tol ->
+         wf_obj_R tol o ->
+         (d < length (o_bases o))%nat ->
+         (d < length ts)%nat ->
+         let bd := nth d (o_bases o) dflt_basis in
+         let a := b_start bd in
+         let e := b_end bd in
+         let K := kn (b_knots bd) in
+         b_per1 bd = 0%nat ->
+         (forall i : nat, (i < length (o_bases o))%nat -> in_dom tol (nth i (o_bases o) dflt_basis) (nth i ts 0)) ->
+         (1 <= r)%nat ->
+         (r <= b_order bd - 1)%nat ->
+         (b_order bd - 1 <= m)%nat ->
+         K m < K (S m) ->
+         K (S m) = K (m + r)%nat ->
+         K (m + r)%nat < K (S (m + r)) ->
+         nth d ts 0 = K (S m) ->
+         (forall v : R, In v (b_knots bd) -> v = K (S m) \/ tol <= Rabs (v - K (S m))) ->
+         obj_eval tol (obj_reverse o d) (upd ts d (a + e - K (S m))) = obj_eval tol o ts.
+Proof. exact @reverse_eval_knot. Qed.
+Print Assumptions C06_reverse_then_evaluate_at_knot.
+
+Theorem C06_reverse_domain :
+  forall tol : R,
+         0 < tol ->
+         forall o : obj R,
+         wf_obj_R tol o ->
+         forall d : nat,
+         (d < length (o_bases o))%nat ->
+         b_per1 (nth d (o_bases o) dflt_basis) = 0%nat ->
+         b_start (nth d (o_bases (obj_reverse o d)) dflt_basis) = b_start (nth d (o_bases o) dflt_basis) /\
+         b_end (nth d (o_bases (obj_reverse o d)) dflt_basis) = b_end (nth d (o_bases o) dflt_basis) /\
+         b_order (nth d (o_bases (obj_reverse o d)) dflt_basis) = b_order (nth d (o_bases o) dflt_basis) /\
+         b_per1 (nth d (o_bases (obj_reverse o d)) dflt_basis) = b_per1 (nth d (o_bases o) dflt_basis) /\
+         b_nfun (nth d (o_bases (obj_reverse o d)) dflt_basis) = b_nfun (nth d (o_bases o) dflt_basis) /\
+         length (o_bases (obj_reverse o d)) = length (o_bases o) /\
+         (forall i : nat, i <> d -> nth i (o_bases (obj_reverse o d)) dflt_basis = nth i (o_bases o) dflt_basis) /\
+         (forall j : nat,
+          kn (b_knots (nth d (o_bases (obj_reverse o d)) dflt_basis)) j =
+          b_start (nth d (o_bases o) dflt_basis) + b_end (nth d (o_bases o) dflt_basis) -
+          kn (b_knots (nth d (o_bases o) dflt_basis)) (length (b_knots (nth d (o_bases o) dflt_basis)) - 1 - j)) /\
+         o_dim (obj_reverse o d) = o_dim o /\ o_rat (obj_reverse o d) = o_rat o.
+Proof. exact @reverse_domain. Qed.
+Print Assumptions C06_reverse_domain.
+
+Theorem C06_reverse_wf :
+  forall tol : R,
+         0 < tol ->
+         forall o : obj R,
+         wf_obj_R tol o ->
+         forall d : nat,
+         (d < length (o_bases o))%nat ->
+         b_per1 (nth d (o_bases o) dflt_basis) = 0%nat -> wf_obj_R tol (obj_reverse o d).
+Proof. exact @reverse_wf. Qed.
+Print Assumptions C06_reverse_wf.
+
+Theorem C06_reverse_involution :
+  forall (tol : R) (o : obj R) (d : nat),
+         0 < tol ->
+         wf_obj_R tol o ->
+         (d < length (o_bases o))%nat ->
+         b_per1 (nth d (o_bases o) dflt_basis) = 0%nat -> obj_reverse (obj_reverse o d) d = o.
+Proof. exact @reverse_involution. Qed.
+Print Assumptions C06_reverse_involution.
+
+Theorem C06_swap_then_evaluate :
+  forall (tol : R) (o : obj R),
+         wf_obj_R tol o ->
+         forall d1 d2 : nat,
+         d1 <> d2 ->
+         (d1 < length (o_bases o))%nat ->
+         (d2 < length (o_bases o))%nat ->
+         forall ts ts2 : list R,
+         (forall i : nat, (i < length (o_bases o))%nat -> in_dom tol (nth i (o_bases o) dflt_basis) (nth i ts 0)) ->
+         (forall i : nat, nth i ts2 0 = nth (tr d1 d2 i) ts 0) ->
+         obj_eval tol (obj_swap o d1 d2) ts2 = obj_eval tol o ts.
+Proof. exact @swap_eval. Qed.
+Print Assumptions C06_swap_then_evaluate.
+
+Theorem C06_swap_wf :
+  forall (tol : R) (o : obj R),
+         wf_obj_R tol o ->
+         forall d1 d2 : nat,
+         d1 <> d2 -> (d1 < length (o_bases o))%nat -> (d2 < length (o_bases o))%nat -> wf_obj_R tol (obj_swap o d1 d2).
+Proof. exact @swap_wf. Qed.
+Print Assumptions C06_swap_wf.
+
+Theorem C06_swap_involution :
+  forall (tol : R) (o : obj R) (d1 d2 : nat),
+         wf_obj_R tol o ->
+         d1 <> d2 ->
+         (d1 < length (o_bases o))%nat -> (d2 < length (o_bases o))%nat -> obj_swap (obj_swap o d1 d2) d1 d2 = o.
+Proof. exact @swap_involution. Qed.
+Print Assumptions C06_swap_involution.
+
+Theorem C06_swap_curve :
+  forall (o : obj R) (d1 d2 : nat), length (o_bases o) = 1%nat -> obj_swap o d1 d2 = o.
+Proof. exact @swap_curve. Qed.
+Print Assumptions C06_swap_curve.
+
